@@ -28,6 +28,12 @@ func runC11(c *Ctx) {
 			}
 		}
 	}
+	// the enforced limit changes while callers wait: a release may free no capacity, and the order
+	// must survive it
+	for _, ct := range qCtors()[:3] {
+		c.Explore(qdScenario(qdCase{prop: "C11", ctor: ct, limit: 2, maxBacklog: 10, timeout: 100 * time.Millisecond, maxArrive: 3, preArrive: 3,
+			depth: c.Pick(5, 6), limitEvents: true}), opt)
+	}
 	for _, fp := range []string{"fifo", "lifo"} {
 		c.Explore(qdScenario(qdCase{prop: "C11", fixedPool: fp, limit: 1, maxBacklog: 10, timeout: 100 * time.Millisecond, maxArrive: arr, preArrive: 2, depth: depth}), opt)
 	}
